@@ -647,3 +647,112 @@ func init() {
 			return out
 		}})
 }
+
+// ---- RINGPNIL
+//
+// Parameters without an auxiliary modulus have RingP() == nil and levelP == -1. A function that shows it knows this
+// (it tests levelP > -1, PCount(), ringP != nil, ...) and yet calls a method on the result of RingP() outside every
+// such test contradicts itself: with P-less parameters the unguarded call dereferences nil (Ring methods have value
+// receivers) before the guarded code is reached.
+
+var ringPNilExempt = map[string]string{
+	"core/rlwe.(Evaluator).DecomposeSingleNTT": "hoisted decomposition is unsupported without P (the package's own tests skip it: 'test requires #P > 0'); AtLevel(-1) panics by design as a sanity check",
+}
+
+func pPresenceTest(info *types.Info, cond ast.Expr) bool {
+	found := false
+	ast.Inspect(cond, func(x ast.Node) bool {
+		switch y := x.(type) {
+		case *ast.BinaryExpr:
+			txt := exprString(y)
+			low := strings.ToLower(txt)
+			if (strings.Contains(low, "levelp") || strings.Contains(low, "ringp") || strings.Contains(low, "pcount") || strings.Contains(low, ".p.level()")) &&
+				(y.Op == token.GTR || y.Op == token.GEQ || y.Op == token.NEQ || y.Op == token.LSS || y.Op == token.EQL) {
+				found = true
+			}
+		case *ast.Ident:
+			if strings.Contains(strings.ToLower(y.Name), "hasmodulusp") {
+				found = true
+			}
+		}
+		return !found
+	})
+	return found
+}
+
+func scanRingPNil(c *core.Ctx) []ob {
+	var out []ob
+	n := 0
+	c.FuncDecls(func(pk *packages.Package, file *ast.File, fd *ast.FuncDecl) {
+		if fd.Body == nil || fileIsTestSupport(c.Program, fd.Pos()) || inExamples(pk) {
+			return
+		}
+		info := pk.TypesInfo
+		fkey := core.FuncKey(pk, fd)
+		pm := parentMapCached(fd)
+		aware := false
+		ast.Inspect(fd.Body, func(x ast.Node) bool {
+			if is, ok := x.(*ast.IfStmt); ok && pPresenceTest(info, is.Cond) {
+				aware = true
+			}
+			return !aware
+		})
+		ord := 0
+		ast.Inspect(fd.Body, func(x ast.Node) bool {
+			call, ok := x.(*ast.CallExpr)
+			if !ok {
+				return true
+			}
+			sel, ok := unparen(call.Fun).(*ast.SelectorExpr)
+			if !ok {
+				return true
+			}
+			inner, ok := unparen(sel.X).(*ast.CallExpr)
+			if !ok || len(inner.Args) != 0 {
+				return true
+			}
+			isel, ok := unparen(inner.Fun).(*ast.SelectorExpr)
+			if !ok || isel.Sel.Name != "RingP" {
+				return true
+			}
+			if t := info.TypeOf(inner); t == nil || !isRingLikeRecv(t) {
+				return true
+			}
+			ord++
+			n++
+			key := fmt.Sprintf("RINGPNIL:%s#%s.%s", fkey, exprString(inner), sel.Sel.Name)
+			guarded := false
+			var child ast.Node = call
+			for p := pm[child]; p != nil; child, p = p, pm[p] {
+				if is, ok := p.(*ast.IfStmt); ok && is.Body == child && pPresenceTest(info, is.Cond) {
+					guarded = true
+				}
+			}
+			switch {
+			case guarded:
+				out = append(out, okOb("RINGPNIL", key, c.Rel(call.Pos()), "dereferenced under a test of the presence of P", true))
+			case !aware:
+				out = append(out, okOb("RINGPNIL", key, c.Rel(call.Pos()), "the function never considers P-less parameters: not decided here", false))
+			case ringPNilExempt[fkey] != "":
+				out = append(out, okOb("RINGPNIL", key, c.Rel(call.Pos()), "exempt: "+ringPNilExempt[fkey], false))
+			default:
+				out = append(out, violOb("RINGPNIL", key, c.Rel(call.Pos()), fmt.Sprintf("%s tests whether the auxiliary modulus P exists, yet calls %s on the result of RingP() outside that test at %s: with parameters that have no P this dereferences a nil ring before the guarded code is reached", fkey, sel.Sel.Name, c.Rel(call.Pos()))))
+			}
+			return true
+		})
+	})
+	c.Stats["ringpnil_sites"] = n
+	return out
+}
+
+func init() {
+	all := []string{"C14", "C04", "C03", "C07", "C16"}
+	core.Register(&core.Rule{Name: "RINGPNIL", Props: all,
+		Doc: "a function that tests for the presence of the auxiliary modulus P (levelP > -1, PCount(), ringP != nil) does not call a method on the result of RingP() outside such a test",
+		Run: func(c *core.Ctx) []ob {
+			out := scanRingPNil(c)
+			out = append(out, core.Floor("RINGPNIL", nil, "method calls on RingP()", c.Stats["ringpnil_sites"], 6)...)
+			out = append(out, control(c, "RINGPNIL", scanRingPNil, "(fixEvaluator).BothRings")...)
+			return out
+		}})
+}
